@@ -93,7 +93,7 @@ def run_case(case):
     # name, any other workload by its class), so that the same message on another input is still reported
     kind = case["kind"].split(":")[0]
     base = kind[:-5] if kind.endswith("_wasm") else kind
-    origin = files[0][0] if base in ("corpus", "mutant", "modules") else base
+    origin = files[0][0] if base in ("corpus", "modules") else base
     problems = [("%s [on %s]" % (s, origin) if "rejected by" in s else s, d) for s, d in problems]
     sig, detail = problems[0]
     return {"verdict": VIOLATED, "sig": sig, "detail": detail, "cov": cov,
